@@ -2786,5 +2786,5 @@ def rule_T14b(ctx):
         r.examine((f["path"],), True, {"fn": f["path"], "ok_path_without_sort": w is not None})
         if w is not None:
             r.finding(f["path"], "conditional-sort", loc(bl[w[-1]]["term"]), "%s sorts the association cells only on some of its paths that return Ok: the sort also moves the keyed cells in front of the holes left by un-keyed items, so on the path that skips it (a single key that is not the first item) the header promises a key the binary search meets a hole for - the look-up fails for good" % last(f["path"]))
-    r.floor("BasicGarnishData functions that sort association cells", n, 3)
+    r.floor("BasicGarnishData functions that sort association cells", n, 1)
     return r
